@@ -980,7 +980,9 @@ class CoseContext(AbstractContext):
                     msg_dec = cbor2.loads(msg_enc)
                     tgt_blk.setfieldval('btsd', msg_dec[2])
                     # the decoded content no longer describes the data and
-                    # must not be encoded over the ciphertext
+                    # must not be encoded over the ciphertext (the type
+                    # code may have come from that layer: keep it)
+                    tgt_blk.setfieldval('type_code', tgt_blk.getfieldval('type_code'))
                     tgt_blk.remove_payload()
                     msg_dec[2] = None
 
@@ -1017,7 +1019,9 @@ class CoseContext(AbstractContext):
                     msg_dec = cbor2.loads(msg_enc)
                     tgt_blk.setfieldval('btsd', msg_dec[2])
                     # the decoded content no longer describes the data and
-                    # must not be encoded over the ciphertext
+                    # must not be encoded over the ciphertext (the type
+                    # code may have come from that layer: keep it)
+                    tgt_blk.setfieldval('type_code', tgt_blk.getfieldval('type_code'))
                     tgt_blk.remove_payload()
                     msg_dec[2] = None
 
